@@ -22,7 +22,7 @@ ASSUMPTIONS = ['counter of copy i of N: $ -> i, zero padded to the run width, @M
                '*0, @^ (parent numbering) and numbering modifiers without any repeater are outside the statement and not generated']
 FLOORS = {'quick': {'enum:numbering': 6000, 'enum:limit': 5000, 'random': 2400, 'random:limit': 3000},
           'thorough': {'enum:numbering': 6000, 'enum:limit': 28000, 'random': 75000, 'random:limit': 150000}}
-REQUIRED_MONITORS = ['oracle:copies-and-counters', 'probe:repeat-guard-monotone', 'probe:repeater-stack-balanced']
+REQUIRED_MONITORS = ['oracle:copies-and-counters', 'oracle:copies-direct-entry', 'probe:repeat-guard-monotone', 'probe:repeater-stack-balanced']
 
 SITE_KINDS = ['name', 'class', 'id', 'attr', 'qattr', 'attrname', 'text']
 
@@ -207,6 +207,46 @@ class Mon:
             ctx.sample({'abbreviation': abbr, 'maxRepeat': max_repeat, 'output': r[1][:260]})
 
 
+def direct_shape(tree):
+    "open/close shape with marker ids read from the node tree returned by the parser entry point"
+    out = []
+    for n in tree.children:
+        mark = None
+        for a in n.attributes or []:
+            if a.name == 'class' and a.value:
+                mm = RE_MARK.search(''.join(v if isinstance(v, str) else ' ' for v in a.value))
+                if mm:
+                    mark = int(mm.group(1))
+        out.append(['open', mark])
+        out += direct_shape(n)
+        out.append(['close'])
+    return out
+
+
+def check_direct(mon, nodes, limit, cls):
+    """The same clause observed at the parser entry point emmet.parse_markup_abbreviation(abbr, {'max_repeat': M}), which also
+    takes the degenerate limits expand() cannot express (expand treats maxRepeat 0 / None as 'no limit'): with M <= 0 the limit is
+    exhausted from the start, so every repeater yields one copy."""
+    import emmet
+    ctx = mon.ctx
+    ctx.ev(cls)
+    ctx.mon('oracle:copies-direct-entry')
+    abbr = write(nodes)
+    exp = simulate(nodes, [limit], None, [False])
+    exp_shape = [[x[0], x[1]] if x[0] == 'open' else ['close'] for x in exp]
+    case = {'direct': True, 'abbr': abbr, 'max_repeat': limit, 'expected_shape': exp_shape}
+    r = core.call(emmet.parse_markup_abbreviation, abbr, {'max_repeat': limit})
+    if r[0] == 'exc':
+        ctx.violation('exception', case, {'exc': list(core.exc_site(r[1])), 'msg': str(r[1])[:120]})
+        return
+    act = direct_shape(r[1])
+    if act != exp_shape:
+        ctx.violation('copy-count', case, {'entry': 'emmet.parse_markup_abbreviation', 'expected_elements': sum(1 for x in exp_shape if x[0] == 'open'),
+                                           'actual_elements': sum(1 for x in act if x[0] == 'open')})
+    elif len(exp_shape) > 4:
+        ctx.seen((abbr, 'direct', limit))
+
+
 def tree_case(nodes, max_repeat):
     abbr = write(nodes)
     trunc = [False]
@@ -388,6 +428,8 @@ def run_shard(desc, ctx):
                     continue
                 abbr, exp, trunc = tree_case(nodes, m)
                 mon.check(abbr, exp, trunc, m, 'enum:limit')
+                k = i // desc['nparts']
+                check_direct(mon, nodes, 0 if k % 5 == 0 else (-1 if k % 7 == 0 else m), 'enum:limit-direct')
         else:
             rng = ctx.rng
             REPS['pool'] = [1, 2, 2, 3, 3, 4, 5, 7, 12] * (8 if ctx.tier == 'quick' else 3) + [13, 16, 25, 40, 101]
@@ -410,6 +452,13 @@ def run_shard(desc, ctx):
 
 def replay(case, ctx):
     if 'abbr' not in case:
+        return
+    if case.get('direct'):
+        import emmet
+        ctx.ev('replay')
+        r = core.call(emmet.parse_markup_abbreviation, case['abbr'], {'max_repeat': case['max_repeat']})
+        if r[0] == 'exc' or direct_shape(r[1]) != case['expected_shape']:
+            ctx.violation('copy-count', case, {'entry': 'emmet.parse_markup_abbreviation'})
         return
     Mon(ctx).check(case['abbr'], case['expected'], case['truncated'], case['maxRepeat'], 'replay')
 
